@@ -256,7 +256,9 @@ class ELsb0(Engine):
             toks = []
             for _ in range(g.int(1, 4)):
                 w = g.int(1, 9)
-                kind = g.pick(['bits', 'bin', 'uint'])
+                kind = g.pick(['bits', 'bin', 'uint', 'kwname', 'kwvalue', 'kwlen', 'pad', 'hex'])
+                if kind == 'hex':
+                    w = 4 * g.int(1, 3)
                 toks.append([kind, w, g.bits(w)])
             ev['toks'] = toks
         return ev
@@ -394,10 +396,10 @@ class ELsb0(Engine):
         if op == 'unpack':
             return x.unpack(list(g('fmt', [])))
         if op == 'pack':
-            fmt, vals = [], []
-            for kind, w, bits in g('toks', []):
+            fmt, vals, kw = [], [], {}
+            for j, (kind, w, bits) in enumerate(g('toks', [])):
                 bits = ''.join(c for c in str(bits) if c in '01')
-                if mirror:
+                if mirror and kind != 'pad':
                     bits = rev(bits)
                 if kind == 'uint':
                     fmt.append(f'uint:{len(bits)}')
@@ -405,10 +407,26 @@ class ELsb0(Engine):
                 elif kind == 'bin':
                     fmt.append(f'bin:{len(bits)}')
                     vals.append(bits)
+                elif kind == 'kwname':
+                    # a token that is just the name of a keyword argument holding a bitstring
+                    fmt.append(f'kn{j}')
+                    kw[f'kn{j}'] = B.Bits(bin=bits)
+                elif kind == 'kwvalue':
+                    # the value of a token given by keyword
+                    fmt.append(f'uint:{len(bits)}=kv{j}')
+                    kw[f'kv{j}'] = int(bits, 2) if bits else 0
+                elif kind == 'kwlen':
+                    fmt.append(f'bits:kl{j}')
+                    kw[f'kl{j}'] = len(bits)
+                    vals.append(B.Bits(bin=bits))
+                elif kind == 'pad':
+                    fmt.append(f'pad:{len(bits)}')
+                elif kind == 'hex' and len(bits) % 4 == 0 and bits:
+                    fmt.append(f'0x{int(bits, 2):0{len(bits) // 4}x}')
                 else:
                     fmt.append(f'bits:{len(bits)}')
                     vals.append(B.Bits(bin=bits))
-            return B.pack(', '.join(fmt), *vals)
+            return B.pack(', '.join(fmt), *vals, **kw)
         if op == 'whole':
             return self._whole(x)
         return None
